@@ -1,1 +1,40 @@
-//! verification hooks used by the check of property C19
+//! verification hooks used by the check of property C19 (read-only views of run-time values)
+
+use crate::value::Value;
+
+/// `(nanoseconds since the Unix epoch, time zone)` of a `DateTime` value.
+/// The time zone is its IANA name if it has one, otherwise its fixed offset in seconds as `offset:<n>`.
+pub fn datetime_parts(v: &Value) -> Option<(i128, String)> {
+    if let Value::DateTime(z) = v {
+        let tz = z.time_zone();
+        let name = match tz.iana_name() {
+            Some(n) => n.to_string(),
+            None => format!("offset:{}", z.offset().seconds()),
+        };
+        Some((z.timestamp().as_nanosecond(), name))
+    } else {
+        None
+    }
+}
+
+/// bit pattern of the value of a quantity after `to_base_unit_representation()` (what
+/// `Op::AddToDateTime` / `Op::SubFromDateTime` read as "seconds"), plus its plain value bits
+pub fn quantity_bits(v: &Value) -> Option<(u64, u64)> {
+    if let Value::Quantity(q) = v {
+        let base = q.to_base_unit_representation();
+        Some((
+            base.unsafe_value().to_f64().to_bits(),
+            q.unsafe_value().to_f64().to_bits(),
+        ))
+    } else {
+        None
+    }
+}
+
+/// jiff's supported range of instants in nanoseconds since the Unix epoch (`Timestamp::MIN`/`MAX`)
+pub fn timestamp_range_ns() -> (i128, i128) {
+    (
+        jiff::Timestamp::MIN.as_nanosecond(),
+        jiff::Timestamp::MAX.as_nanosecond(),
+    )
+}
